@@ -11,6 +11,8 @@ func init() {
 			ruleNilFlag(r)
 			ruleCompressionTable(r)
 			ruleOffsetAccounting(r)
+			ruleSizeIsAppendPosition(r)
+			ruleStickyWriteError(r)
 			ruleTruncateOnClose(r)
 			ruleScanStep(r)
 			ruleHeaderCrc(r)
@@ -39,6 +41,7 @@ func init() {
 			ruleFormat(r)
 			ruleReaderErrflow(r)
 			ruleSkipBounded(r)
+			ruleNilFlag(r)
 			ruleHeaderSizesChecked(r)
 		})
 	register("C20",
